@@ -237,6 +237,64 @@ func gnInstalled(font *sfnt.Font) []string {
 	return out
 }
 
+func gnCffNames(o *cff.Outlines) []string {
+	out := make([]string, len(o.Glyphs))
+	for i, g := range o.Glyphs {
+		out[i] = g.Name
+	}
+	return out
+}
+
+// gnCffBuild rebuilds outlines and glyph text of a cffmake/cffstable case line.
+func gnCffBuild(f Fields) (*cff.Outlines, map[glyph.ID]string, string) {
+	nms := gnParseNames(f.Int("nn"), f["names"])
+	o := &cff.Outlines{Private: []*type1.PrivateDict{{}}, FDSelect: func(glyph.ID) int { return 0 }}
+	for _, nm := range nms {
+		o.Glyphs = append(o.Glyphs, &cff.Glyph{Name: nm})
+	}
+	if f["cid"] == "1" {
+		o.ROS = &cid.SystemInfo{Registry: "Adobe", Ordering: "Identity"}
+		o.GIDToCID = make([]cid.CID, len(nms))
+	}
+	var text map[glyph.ID]string
+	if f["textnil"] != "1" {
+		text = map[glyph.ID]string{}
+	}
+	base := map[int]string{}
+	for _, t := range strings.Split(f["text"], ",") {
+		if t == "" {
+			continue
+		}
+		q := strings.Split(t, ":")
+		var g int
+		fmt.Sscan(q[0], &g)
+		base[g] = string(mustHex(q[1]))
+	}
+	for _, t := range strings.Split(f["rawtext"], ",") {
+		if t == "" {
+			continue
+		}
+		q := strings.Split(t, ":")
+		var g int
+		fmt.Sscan(q[0], &g)
+		s := string(mustHex(q[1]))
+		text[glyph.ID(g)] = s
+		if names.FromUnicode(s) != base[g] {
+			return nil, nil, "case:text-stale"
+		}
+	}
+	if !names.IsValid(".notdef") || names.IsValid("") {
+		// hypothesis of C20_makesimple_kept, and the convention for the empty name
+		return nil, nil, "case:isvalid-assumption"
+	}
+	for _, x := range gnParseNames(len(f["invalid"]), f["invalid"]) {
+		if names.IsValid(x) {
+			return nil, nil, "case:invalid-stale"
+		}
+	}
+	return o, text, ""
+}
+
 func init() {
 	areas["gnames"] = areaGNames
 	ops["gnames.make"] = func(f Fields) string {
@@ -268,58 +326,52 @@ func init() {
 		}))
 	}
 	ops["gnames.cffmake"] = func(f Fields) string {
-		nms := gnParseNames(f.Int("nn"), f["names"])
-		o := &cff.Outlines{Private: []*type1.PrivateDict{{}}, FDSelect: func(glyph.ID) int { return 0 }}
-		for _, nm := range nms {
-			o.Glyphs = append(o.Glyphs, &cff.Glyph{Name: nm})
-		}
-		if f["cid"] == "1" {
-			o.ROS = &cid.SystemInfo{Registry: "Adobe", Ordering: "Identity"}
-			o.GIDToCID = make([]cid.CID, len(nms))
-		}
-		var text map[glyph.ID]string
-		if f["textnil"] != "1" {
-			text = map[glyph.ID]string{}
-		}
-		base := map[int]string{}
-		for _, t := range strings.Split(f["text"], ",") {
-			if t == "" {
-				continue
-			}
-			q := strings.Split(t, ":")
-			var g int
-			fmt.Sscan(q[0], &g)
-			base[g] = string(mustHex(q[1]))
-		}
-		for _, t := range strings.Split(f["rawtext"], ",") {
-			if t == "" {
-				continue
-			}
-			q := strings.Split(t, ":")
-			var g int
-			fmt.Sscan(q[0], &g)
-			s := string(mustHex(q[1]))
-			text[glyph.ID(g)] = s
-			if names.FromUnicode(s) != base[g] {
-				return "case:text-stale"
-			}
-		}
-		if !names.IsValid(".notdef") || names.IsValid("") {
-			// hypothesis of C20_makesimple_kept, and the convention for the empty name
-			return "case:isvalid-assumption"
-		}
-		for _, x := range gnParseNames(len(f["invalid"]), f["invalid"]) {
-			if names.IsValid(x) {
-				return "case:invalid-stale"
-			}
+		o, text, bad := gnCffBuild(f)
+		if bad != "" {
+			return bad
 		}
 		return canonPanic(guard(func() string {
 			o.MakeSimple(text)
-			out := make([]string, len(o.Glyphs))
-			for i, g := range o.Glyphs {
-				out[i] = g.Name
+			return gnHexNames(gnCffNames(o))
+		}))
+	}
+	// direct check on the real MakeSimple: every name is a valid glyph name (names.IsValid), names
+	// are pairwise distinct, glyph 0 is .notdef, and converting again (with no text, and with the
+	// same text) leaves every name as it is
+	ops["gnames.cffstable"] = func(f Fields) string {
+		o, text, bad := gnCffBuild(f)
+		if bad != "" {
+			return bad
+		}
+		return canonPanic(guard(func() string {
+			o.MakeSimple(text)
+			first := gnCffNames(o)
+			seen := map[string]int{}
+			for i, nm := range first {
+				if !names.IsValid(nm) {
+					return fmt.Sprintf("invalid-name:glyph=%d:len=%d:%x", i, len(nm), nm)
+				}
+				if j, dup := seen[nm]; dup {
+					return fmt.Sprintf("duplicate:glyphs=%d,%d:%x", j, i, nm)
+				}
+				seen[nm] = i
 			}
-			return gnHexNames(out)
+			if first[0] != ".notdef" {
+				return fmt.Sprintf("glyph0:%x", first[0])
+			}
+			o.MakeSimple(nil)
+			for i, nm := range gnCffNames(o) {
+				if nm != first[i] {
+					return fmt.Sprintf("unstable(nil):glyph=%d:%x:%x", i, first[i], nm)
+				}
+			}
+			o.MakeSimple(text)
+			for i, nm := range gnCffNames(o) {
+				if nm != first[i] {
+					return fmt.Sprintf("unstable(text):glyph=%d:%x:%x", i, first[i], nm)
+				}
+			}
+			return "ok"
 		}))
 	}
 	ops["gnames.psname"] = func(f Fields) string {
@@ -413,6 +465,8 @@ func init() {
 	ops["gnames.notdef"] = yes
 	ops["gnames.kept"] = yes
 	ops["gnames.explained"] = yes
+	ops["gnames.inferred"] = yes
+	ops["gnames.safe"] = yes
 }
 
 var gnPool = []string{"A", "B", "a", "f", "i", "fi", "f_i", "space", "orn001", "orn002", "orn003", "A.1", "A.2", "a.1",
@@ -655,6 +709,9 @@ func gnEmit(c *Ctx, kind string, n int, nms []string, line string, nontriv, ensu
 	// every name is an existing name, a cmap name, a variant of a source glyph's name, the joined
 	// names of exactly one ligature rule's components, or a placeholder
 	c.Case(Direct, "gnames.explained", line+" "+o, nontriv)
+	// a glyph that a GSUB 1.1/1.2/3.1/4.1 rule derives from glyphs named before the GSUB pass
+	// (existing or cmap names) does not end up with a numbered placeholder
+	c.Case(Direct, "gnames.inferred", line+" "+o, nontriv)
 	if !ensure {
 		return
 	}
@@ -743,6 +800,73 @@ func gnLigFamily(c *Ctx) {
 	gnEmit(c, kind, n, nms, line, true, r.Chance(1, 3))
 }
 
+// gnNegDeltaFamily: GSUB 1.1 subtables whose DeltaGlyphID is negative (stored modulo 65536: the
+// variants are stored before their base glyphs) or wraps to glyph 0 / lands on the last glyph,
+// as the only naming source of otherwise unnamed glyphs.
+func gnNegDeltaFamily(c *Ctx) {
+	r := c.Rng
+	n := r.Range(6, 16)
+	kind := Pick(r, []string{"glyf", "cff"})
+	nms := make([]string, n)
+	// bases: the upper half of the glyphs, named by the cmap or by existing names
+	lo := n / 2
+	var cp, fu []string
+	byCmap := r.Bool()
+	for g := lo; g < n; g++ {
+		if byCmap {
+			code := 'a' + (g - lo)
+			cp = append(cp, fmt.Sprintf("%d:%d", code, g))
+			fu = append(fu, fmt.Sprintf("%d:%s", code, hex.EncodeToString([]byte(names.FromUnicode(string(rune(code)))))))
+		} else {
+			nms[g] = fmt.Sprintf("base%d", g)
+		}
+	}
+	if kind == "glyf" && byCmap && r.Bool() {
+		nms = nil
+	}
+	var subs []string
+	k := r.Range(1, lo-1) // targets = base - k: unnamed glyphs of the lower half
+	var delta int
+	switch r.Intn(5) {
+	case 0: // wrap to exactly glyph 0 for the first base
+		delta = 65536 - lo
+		c.Stat("neg-delta", "first-target-is-glyph-0")
+	case 1: // the last glyph as target of a small positive delta, from an unnamed... base n-2
+		delta = 1
+		c.Stat("neg-delta", "positive-onto-last-glyph")
+	default:
+		delta = 65536 - k
+		c.Stat("neg-delta", "negative")
+	}
+	var cov []int
+	for g := lo; g < n; g++ {
+		if r.Chance(3, 4) {
+			cov = append(cov, g)
+		}
+	}
+	if len(cov) == 0 {
+		cov = []int{lo}
+	}
+	subs = append(subs, fmt.Sprintf("s1:%d:%s", delta, ints(cov)))
+	if r.Chance(1, 3) { // a second subtable with another negative delta
+		subs = append(subs, fmt.Sprintf("s1:%d:%s", 65536-r.Range(1, lo), ints(cov)))
+	}
+	cm := "-"
+	if len(cp) > 0 {
+		cm = strings.Join(cp, ",")
+	}
+	c.Stat("stream", "gsub1.1-negative-delta")
+	line := fmt.Sprintf("kind=%s n=%d nn=%d names=%s cmap=%s fu=%s gsub=%s", kind, n, len(nms), gnHexNames(nms), cm, strings.Join(fu, ","), strings.Join(subs, ";"))
+	if kind == "cff" && len(nms) != n {
+		return
+	}
+	if _, bad := gnFont(parseFields(line)); bad != "" {
+		c.Stat("case-rejected", bad)
+		return
+	}
+	gnEmit(c, kind, n, nms, line, true, r.Chance(1, 4))
+}
+
 // gnDupCffFamily: CFF fonts whose existing names contain duplicates and/or whose glyph 0 carries a
 // non-empty name other than .notdef; EnsureGlyphNames, per-glyph read-back, Write + Read.
 func gnDupCffFamily(c *Ctx) {
@@ -804,15 +928,92 @@ func gnCffCase(c *Ctx) {
 	r := c.Rng
 	n := Pick(r, []int{1, 2, 3, 5, 8, 12, 20})
 	nms := gnNames(r, n, c)
-	args := ""
+	cidKeyed := false
 	if r.Chance(1, 3) {
 		for i := range nms {
 			nms[i] = ""
 		}
-		args = " cid=1"
+		cidKeyed = true
 		c.Stat("cffmake", "cid-keyed")
 	} else {
 		c.Stat("cffmake", "simple")
+	}
+	var text map[int]string
+	if r.Chance(1, 5) {
+		c.Stat("cffmake-text", "nil")
+	} else {
+		c.Stat("cffmake-text", "map")
+		text = map[int]string{}
+		long := strings.Repeat("A", 10)
+		for g := 0; g < n; g++ {
+			if !r.Chance(2, 3) {
+				continue
+			}
+			text[g] = Pick(r, []string{"A", "A", "B", "fi", "f", "ﬁ", " ", "é", " ", long, "AB", "x", "😀", "a"})
+		}
+	}
+	gnCffEmit(c, nms, text, cidKeyed)
+}
+
+// gnCffLongFamily: glyph texts whose derived names are 25..31 characters long and collide (two
+// or three glyphs with the same text, or an existing name equal to the derived name), so that the
+// ".altN" candidates cross the 31-character limit of a glyph name.
+func gnCffLongFamily(c *Ctx) {
+	r := c.Rng
+	n := r.Range(3, 9)
+	nms := make([]string, n)
+	cidKeyed := r.Chance(1, 2)
+	letters := r.Range(13, 16) // FromUnicode gives 2*letters-1 characters: 25, 27, 29, 31
+	mk := func() string {
+		b := make([]byte, letters)
+		for i := range b {
+			b[i] = byte('A' + r.Intn(26))
+		}
+		return string(b)
+	}
+	t1 := mk()
+	text := map[int]string{}
+	g1 := r.Range(1, n-1)
+	text[g1] = t1
+	c.Stat("cff-long-name-length", fmt.Sprint(len(names.FromUnicode(t1))))
+	switch r.Intn(3) {
+	case 0: // the same text on further glyphs
+		for k := r.Range(1, 2); k > 0; k-- {
+			text[r.Range(1, n-1)] = t1
+		}
+		c.Stat("cff-long-collision", "same-text")
+	case 1: // an existing (kept) name equal to the derived name
+		if !cidKeyed {
+			g2 := r.Range(1, n-1)
+			if g2 != g1 {
+				nms[g2] = names.FromUnicode(t1)
+			}
+		}
+		text[r.Range(1, n-1)] = t1
+		c.Stat("cff-long-collision", "existing-name")
+	default: // both, and a second long text
+		text[r.Range(1, n-1)] = t1
+		text[r.Range(1, n-1)] = t1
+		text[r.Range(1, n-1)] = mk()
+		c.Stat("cff-long-collision", "three-way")
+	}
+	if r.Chance(1, 3) {
+		text[r.Range(1, n-1)] = "A"
+	}
+	if !cidKeyed && r.Chance(1, 2) {
+		nms[0] = ".notdef"
+	}
+	c.Stat("stream", "cff-long-colliding-text-names")
+	gnCffEmit(c, nms, text, cidKeyed)
+}
+
+// gnCffEmit writes the verdict case for MakeSimple and the direct predicates on its real output.
+// text == nil stands for a nil glyphText map.
+func gnCffEmit(c *Ctx, nms []string, text map[int]string, cidKeyed bool) {
+	n := len(nms)
+	args := ""
+	if cidKeyed {
+		args = " cid=1"
 	}
 	var raw, txt []string
 	inv := map[string]bool{}
@@ -827,17 +1028,14 @@ func gnCffCase(c *Ctx) {
 		}
 		chk(nm)
 	}
-	if r.Chance(1, 5) {
+	if text == nil {
 		args += " textnil=1"
-		c.Stat("cffmake-text", "nil")
 	} else {
-		c.Stat("cffmake-text", "map")
-		long := strings.Repeat("A", 10)
 		for g := 0; g < n; g++ {
-			if !r.Chance(2, 3) {
+			s, ok := text[g]
+			if !ok {
 				continue
 			}
-			s := Pick(r, []string{"A", "A", "B", "fi", "f", "ﬁ", " ", "é", " ", long, "AB", "x", "😀", "a"})
 			raw = append(raw, fmt.Sprintf("%d:%s", g, hex.EncodeToString([]byte(s))))
 			b := names.FromUnicode(s)
 			txt = append(txt, fmt.Sprintf("%d:%s", g, hex.EncodeToString([]byte(b))))
@@ -862,10 +1060,28 @@ func gnCffCase(c *Ctx) {
 		return
 	}
 	c.Stat("cffmake-outcome", "names")
+	longest := 0
+	for _, nm := range strings.Split(out, ",") {
+		if len(nm)/2 > longest {
+			longest = len(nm) / 2
+		}
+	}
+	switch {
+	case longest > 31:
+		c.Stat("cffmake-longest-name", ">31")
+	case longest >= 25:
+		c.Stat("cffmake-longest-name", "25-31")
+	default:
+		c.Stat("cffmake-longest-name", "<25")
+	}
 	o := fmt.Sprintf("on=%d out=%s", n, out)
 	c.Case(Direct, "gnames.complete", fmt.Sprintf("n=%d ", n)+o, n >= 2)
 	c.Case(Direct, "gnames.unique", o, n >= 2)
 	c.Case(Direct, "gnames.notdef", o, n >= 2)
+	// every name of the simple font is a legal glyph name: at most 31 characters from
+	// A-Z a-z 0-9 . _ , not starting with a digit or period (.notdef excepted)
+	c.Case(Direct, "gnames.safe", o, n >= 2)
+	c.Case(Direct, "gnames.cffstable", line, n >= 2)
 }
 
 func gnPsCase(c *Ctx) {
@@ -984,10 +1200,18 @@ func areaGNames(c *Ctx) {
 	}
 	// ligature set with a rule abandoned half-way; CFF names with a duplicate / a named glyph 0
 	gnEmit(c, "cff", 8, make([]string, 8), "kind=cff n=8 nn=8 names=,,,,,,, cmap=102:1,105:2,108:3 fu=102:66,105:69,108:6c gsub=lg:1-0:1,4>5/2>6/3>7|", true, true)
+	// GSUB 1.1 with delta -2 (variants stored before their bases) as the only source of names
+	gnEmit(c, "glyf", 6, nil, "kind=glyf n=6 nn=0 names= cmap=97:3,98:4,99:5 fu=97:61,98:62,99:63 gsub=s1:65534:3,4,5", true, false)
+	// MakeSimple: two glyphs with the same 16-letter text: the derived name has 31 characters
+	gnCffEmit(c, make([]string, 4), map[int]string{1: "ABCDEFGHIJKLMNOP", 2: "ABCDEFGHIJKLMNOP", 3: "A"}, true)
 	gnEmit(c, "cff", 4, []string{".notdef", "A", "B", "A"}, "kind=cff n=4 nn=4 names=2e6e6f74646566,41,42,41 cmap=65:1,66:2,67:3 fu=65:41,66:42,67:43 gsub=", true, true)
 	gnEmit(c, "cff", 4, []string{"space", "A", "B", "C"}, "kind=cff n=4 nn=4 names=7370616365,41,42,43 cmap=65:1,66:2,67:3 fu=65:41,66:42,67:43 gsub=", true, true)
 	for i := 0; i < c.N; i++ {
 		switch {
+		case i%20 == 3:
+			gnNegDeltaFamily(c)
+		case i%20 == 13:
+			gnCffLongFamily(c)
 		case i%20 == 7:
 			gnLigFamily(c)
 		case i%20 == 17:
